@@ -108,13 +108,11 @@ def _tuples(geom):
     return [(a, tuple(float(v) for v in x)) for a, x in geom]
 
 
-def _build_oniom(ONIOMProblemDecomposition, geom, frs, fmt="list"):
+def _build_oniom(ONIOMProblemDecomposition, geometry, frs):
     """ONIOMProblemDecomposition builds every fragment's mean field; Tangelo refuses (explicit ValueError) when an SCF
-    does not converge - a documented refusal, not a statement about the decomposition.  The geometry is handed over
-    in one of the two documented formats (list of (symbol, (x, y, z)) or "symbol x y z" lines)."""
-    g = copy.deepcopy(geom) if fmt == "list" else "\n".join(f"{a} {x!r} {y!r} {z!r}" for a, (x, y, z) in geom)
+    does not converge - a documented refusal, not a statement about the decomposition."""
     try:
-        return ONIOMProblemDecomposition({"geometry": g, "fragments": frs})
+        return ONIOMProblemDecomposition({"geometry": geometry, "fragments": frs})
     except ValueError as ex:
         if "Hartree-Fock calculation did not converge" in str(ex):
             raise Skip("mean-field-did-not-converge")
@@ -153,15 +151,83 @@ def link_placement(ctx):
 
 # ===================================================================================================== ONIOM
 
-def _mk_fragment(Fragment, Link, solver_low, basis_low, solver_high=None, basis_high=None, sel=None, links=None, charge=0, spin=0):
-    kw = dict(solver_low=solver_low, options_low={"basis": basis_low}, charge=charge, spin=spin)
-    if solver_high is not None:
-        kw.update(solver_high=solver_high, options_high={"basis": basis_high})
-    if sel is not None:
-        kw["selected_atoms"] = copy.deepcopy(sel)
-    if links:
-        kw["broken_links"] = [Link(l["staying"], l["leaving"], factor=l["factor"], species=l["species"]) for l in links]
-    return Fragment(**kw)
+class _Problem:
+    """The caller-owned argument objects of one ONIOM problem: the geometry (list of (symbol, (x, y, z)) or the
+    "symbol x y z" text, both documented), one options dict per (slot id, content) - equal ids with equal content are
+    the very same dict object, as when a user writes `opts = {...}` once and passes it to several levels / fragments -,
+    selection lists and Link objects.  Fragments can be created from them any number of times, and the objects can
+    be compared with a snapshot afterwards."""
+
+    def __init__(self, geom, fmt, Link):
+        self.geometry = copy.deepcopy(geom) if fmt == "list" else "\n".join(f"{a} {x!r} {y!r} {z!r}" for a, (x, y, z) in geom)
+        self.pool, self.specs, self.Link = {}, [], Link
+
+    def opt(self, slot, basis, frozen):
+        key = (slot, basis, frozen)
+        if key not in self.pool:
+            self.pool[key] = {"basis": basis} if frozen is None else {"basis": basis, "frozen_orbitals": frozen}
+        return self.pool[key]
+
+    def add(self, solver_low, slot_low, basis_low, solver_high=None, slot_high=None, basis_high=None, frozen=None,
+            sel=None, links=None, charge=0, spin=0):
+        self.specs.append({"solver_low": solver_low, "low": (slot_low, basis_low, frozen), "solver_high": solver_high,
+                           "high": (slot_high, basis_high, frozen), "sel": copy.deepcopy(sel), "charge": charge, "spin": spin,
+                           "links": [self.Link(l["staying"], l["leaving"], factor=l["factor"], species=l["species"]) for l in links or []]})
+        return len(self.specs) - 1
+
+    def fragments(self, Fragment):
+        out = []
+        for sp in self.specs:
+            kw = dict(solver_low=sp["solver_low"], options_low=self.opt(*sp["low"]), charge=sp["charge"], spin=sp["spin"])
+            if sp["solver_high"] is not None:
+                kw.update(solver_high=sp["solver_high"], options_high=self.opt(*sp["high"]))
+            if sp["sel"] is not None:
+                kw["selected_atoms"] = sp["sel"]
+            if sp["links"]:
+                kw["broken_links"] = sp["links"]
+            out.append(Fragment(**kw))
+        return out
+
+    def state(self):
+        for sp in self.specs:      # make sure every options dict exists before the snapshot
+            self.opt(*sp["low"])
+            if sp["solver_high"] is not None:
+                self.opt(*sp["high"])
+        return {"options": {repr(k): copy.deepcopy(v) for k, v in self.pool.items()},
+                "geometry": copy.deepcopy(self.geometry),
+                "selected_atoms": [copy.deepcopy(sp["sel"]) for sp in self.specs],
+                "links": [[(l.staying, l.leaving, l.factor, copy.deepcopy(l.species)) for l in sp["links"]] for sp in self.specs]}
+
+    def unchanged(self, snap, when):
+        now = self.state()
+        for which in ("options", "geometry", "selected_atoms", "links"):
+            if now[which] != snap[which]:
+                raise Fail(f"{when}: the caller's {which} were modified: before {snap[which]!r}, after {now[which]!r}",
+                           sig=f"oniom:argument-mutated:{which}")
+
+    def shared_slots(self):
+        """Keys of the option dicts that are handed to more than one level / fragment."""
+        used = [sp["low"] for sp in self.specs] + [sp["high"] for sp in self.specs if sp["solver_high"] is not None]
+        return sorted({k for k in used if used.count(k) > 1}, key=repr)
+
+
+def _run_oniom(ONIOMProblemDecomposition, Fragment, prob, twice, geometry_checks):
+    """Build + simulate (optionally a second time from the same argument objects); arguments must come back unchanged
+    and a second build must give the same energy. Returns (energy, fragments of the first build)."""
+    snap = prob.state()
+    frs = prob.fragments(Fragment)
+    od = _build_oniom(ONIOMProblemDecomposition, prob.geometry, frs)
+    prob.unchanged(snap, "after constructing ONIOMProblemDecomposition")
+    geometry_checks(frs)
+    e = od.simulate()
+    prob.unchanged(snap, "after simulate()")
+    if twice:
+        frs2 = prob.fragments(Fragment)
+        e2 = _build_oniom(ONIOMProblemDecomposition, prob.geometry, frs2).simulate()
+        prob.unchanged(snap, "after a second build + simulate()")
+        if not np.isfinite(e2) or abs(e2 - e) > 1e-8:
+            raise Fail(f"the same ONIOM definition built and simulated twice gives {e!r} then {e2!r}", sig="oniom:rebuild-differs")
+    return e, frs
 
 
 def _expected_fragment_geometry(geom, sel, links):
@@ -192,6 +258,17 @@ def _check_fragment_geometry(geom, frag_geom, sel, links, what):
         pos += c
 
 
+def _share_labels(case, prob):
+    labs = {"options-share:" + case.get("share", "fresh")}
+    if prob.shared_slots():
+        labs.add("options-dict-object-shared")
+        if any(k[1] != "sto-3g" or k[2] is not None for k in prob.shared_slots()):
+            labs.add("options-dict-object-shared:non-default-basis-or-frozen")
+    if case.get("twice"):
+        labs.add("built-twice")
+    return labs
+
+
 def _oniom_labels(case, models):
     labs = {"sys:" + ("heavy" if case["sys"]["heavy"] else "H" + str(len(case["sys"]["geom"]))), "geometry-as-" + case.get("geom_format", "list"),
             "open-shell-system" if case["sys"]["spin"] else "closed-shell-system", case["order"]}
@@ -215,15 +292,23 @@ def oniom_same_level(ctx):
     def body(case):
         sysd = case["sys"]
         geom = _tuples(sysd["geom"])
-        system = _mk_fragment(Fragment, Link, case["low"], case["low_basis"], charge=sysd["charge"], spin=sysd["spin"])
-        models = [_mk_fragment(Fragment, Link, m["solver"], m["basis"], m["solver"], m["basis"], sel=m["sel"], links=m["links"],
-                               charge=m["charge"], spin=m["spin"]) for m in case["models"]]
-        frs = [system] + models if case["order"] == "system-first" else models + [system]
-        od = _build_oniom(ONIOMProblemDecomposition, geom, frs, case.get("geom_format", "list"))
-        for m, f in zip(case["models"], models):
-            _check_fragment_geometry(sysd["geom"], f.geometry, m["sel"], m["links"], "model fragment")
-        _check_fragment_geometry(sysd["geom"], system.geometry, None, None, "system fragment")
-        e = od.simulate()
+        prob = _Problem(geom, case.get("geom_format", "list"), Link)
+        s_sys, s_mod = H.share_ids(case.get("share", "fresh"), len(case["models"]))
+        first = case["order"] == "system-first"
+        if first:
+            i_sys = prob.add(case["low"], s_sys, case["low_basis"], charge=sysd["charge"], spin=sysd["spin"])
+        i_mod = [prob.add(m["solver"], sl, m["basis"], m["solver"], sh, m["basis"], frozen=m.get("frozen"), sel=m["sel"],
+                          links=m["links"], charge=m["charge"], spin=m["spin"]) for m, (sl, sh) in zip(case["models"], s_mod)]
+        if not first:
+            i_sys = prob.add(case["low"], s_sys, case["low_basis"], charge=sysd["charge"], spin=sysd["spin"])
+
+        def geometry_checks(frs):
+            for m, i in zip(case["models"], i_mod):
+                _check_fragment_geometry(sysd["geom"], frs[i].geometry, m["sel"], m["links"], "model fragment")
+            _check_fragment_geometry(sysd["geom"], frs[i_sys].geometry, None, None, "system fragment")
+
+        e, frs = _run_oniom(ONIOMProblemDecomposition, Fragment, prob, case.get("twice", False), geometry_checks)
+        models = [frs[i] for i in i_mod]
         ref = _ref(sysd["geom"], case["low"], case["low_basis"], sysd["charge"], sysd["spin"])
         if not np.isfinite(e) or abs(e - ref) > ETOL:
             raise Fail(f"ONIOM with model fragment(s) at identical high/low level gives {e!r}, E_low(system)={ref!r} "
@@ -231,8 +316,10 @@ def oniom_same_level(ctx):
                        sig="oniom:same-level", e_fragments=[float(f.e_fragment) for f in frs])
         n = len(geom)
         proper = any((m["sel"] if isinstance(m["sel"], int) else len(m["sel"])) < n or m["links"] for m in case["models"])
-        labs = _oniom_labels(case, case["models"]) | {"low:" + case["low"], "elow-sign-exercised"}
+        labs = _oniom_labels(case, case["models"]) | {"low:" + case["low"], "elow-sign-exercised"} | _share_labels(case, prob)
         labs.update("model-solver:" + m["solver"] for m in case["models"])
+        if any(m.get("frozen") for m in case["models"]):
+            labs.add("frozen_orbitals-in-options")
         labs.add(f"n_models={len(models)}")
         return proper, labs
 
@@ -257,16 +344,24 @@ def oniom_whole_model(ctx):
                 raise Skip("reference-scf-depends-on-atom-order")
             if case["low"] == "CCSD" and abs(_ref(sysd["geom"], "CCSD", case["low_basis"], q, s) - _ref(g2, "CCSD", case["low_basis"], q, s)) > 1e-7:
                 raise Skip("reference-ccsd-depends-on-atom-order")
-        system = _mk_fragment(Fragment, Link, case["low"], case["low_basis"], charge=q, spin=s)
-        model = _mk_fragment(Fragment, Link, case["low"], case["low_basis"], case["high"], case["high_basis"], sel=case["sel"], charge=q, spin=s)
-        extras = [_mk_fragment(Fragment, Link, m["solver"], m["basis"], m["solver"], m["basis"], sel=m["sel"], charge=m["charge"], spin=m["spin"])
-                  for m in case["extras"]]
-        frs = [system, model] + extras if case["order"] == "system-first" else [model] + extras + [system]
-        od = _build_oniom(ONIOMProblemDecomposition, geom, frs, case.get("geom_format", "list"))
-        _check_fragment_geometry(sysd["geom"], model.geometry, case["sel"], None, "whole-system model fragment")
-        for m, f in zip(case["extras"], extras):
-            _check_fragment_geometry(sysd["geom"], f.geometry, m["sel"], None, "extra model fragment")
-        e = od.simulate()
+        prob = _Problem(geom, case.get("geom_format", "list"), Link)
+        s_sys, s_mod = H.share_ids(case.get("share", "fresh"), 1 + len(case["extras"]))
+        first = case["order"] == "system-first"
+        if first:
+            prob.add(case["low"], s_sys, case["low_basis"], charge=q, spin=s)
+        i_model = prob.add(case["low"], s_mod[0][0], case["low_basis"], case["high"], s_mod[0][1], case["high_basis"],
+                           sel=case["sel"], charge=q, spin=s)
+        i_ext = [prob.add(m["solver"], sl, m["basis"], m["solver"], sh, m["basis"], frozen=m.get("frozen"), sel=m["sel"],
+                          charge=m["charge"], spin=m["spin"]) for m, (sl, sh) in zip(case["extras"], s_mod[1:])]
+        if not first:
+            prob.add(case["low"], s_sys, case["low_basis"], charge=q, spin=s)
+
+        def geometry_checks(frs):
+            _check_fragment_geometry(sysd["geom"], frs[i_model].geometry, case["sel"], None, "whole-system model fragment")
+            for m, i in zip(case["extras"], i_ext):
+                _check_fragment_geometry(sysd["geom"], frs[i].geometry, m["sel"], None, "extra model fragment")
+
+        e, frs = _run_oniom(ONIOMProblemDecomposition, Fragment, prob, case.get("twice", False), geometry_checks)
         ref = _ref(sysd["geom"], case["high"], case["high_basis"], q, s)
         if not np.isfinite(e) or abs(e - ref) > ETOL:
             raise Fail(f"ONIOM whose model is the whole system (selected_atoms={case['sel']}) gives {e!r}, "
@@ -274,6 +369,7 @@ def oniom_whole_model(ctx):
                        sig="oniom:whole-model", e_fragments=[float(f.e_fragment) for f in frs])
         differs = (case["low"], case["low_basis"]) != (case["high"], case["high_basis"])
         labs = _oniom_labels(case, [{"sel": case["sel"]}] + case["extras"])
+        labs |= _share_labels(case, prob)
         labs |= {f"pair:{case['low']}->{case['high']}", "elow-sign-exercised",
                  "basis-differs" if case["low_basis"] != case["high_basis"] else "basis-same"}
         if case["extras"]:
